@@ -63,7 +63,10 @@ type gcase struct {
 	g       *gram.Grammar
 	entries []entry
 	inline  bool   // action code must also compile under -noast ("inline" action mode)
-	rawText string // replay: use this grammar text verbatim (package clause renamed) instead of printing the AST
+	// blankActs: every fourth action of the grammar has no code at all ("{ }", a marker): it still is an action of the
+	// derivation and records its token (only for checks that do not compare the action trace)
+	blankActs bool
+	rawText   string // replay: use this grammar text verbatim (package clause renamed) instead of printing the AST
 	text    string
 	extra   map[string]any
 }
@@ -82,6 +85,14 @@ func (c *gcase) printOpts(pkg string, v *rand.Rand) gram.PrintOpts {
 				return fmt.Sprintf("p.actI(%d, text)%s", id, pct)
 			}
 			return fmt.Sprintf("p.actN(%d)%s", id, pct)
+		}
+	}
+	if c.blankActs && !c.inline {
+		o.ActionCode = func(id int) string {
+			if id%4 == 2 {
+				return ""
+			}
+			return fmt.Sprintf("p.act(%d, text, begin, end)", id)
 		}
 	}
 	return o
